@@ -9,8 +9,14 @@ def repo_hash():
     return tree_hash([os.path.join(REPO, "src"), os.path.join(REPO, "include"),
                       os.path.join(REPO, "CMakeLists.txt"), os.path.join(REPO, "cmake")])
 
+TSAN_FLAGS = "-fsanitize=thread -fno-omit-frame-pointer"
+VARIANT_FLAGS = {
+    # ThreadSanitizer build (cannot be combined with AddressSanitizer): data races of worker and user threads
+    "tsan": (f"-D{GUARD} -DENABLE_ASSERT -g -O1 -Wno-error {TSAN_FLAGS}", TSAN_FLAGS),
+}
 VARIANTS = {
     None: [],
+    "tsan": [],
     # no runtime dispatch to AVX512/POPCNT code paths: the portable pre-sieve, bit decoding and popcount
     "portable": ["-DWITH_MULTIARCH=OFF"],
 }
@@ -33,10 +39,13 @@ def build_repo(variant=None):
         shutil.rmtree(d, ignore_errors=True)
         os.makedirs(d)
         t0 = time.time()
+        cxx, ld = VARIANT_FLAGS.get(variant, (CXXFLAGS, SAN_FLAGS))
+        with open(os.path.join(d, ".cxxflags"), "w") as f:
+            f.write(cxx)
         rc, out, err = run(["cmake", "-G", "Ninja", "-S", REPO, "-B", d,
                             "-DCMAKE_BUILD_TYPE=RelWithDebInfo", "-DBUILD_SHARED_LIBS=OFF",
                             "-DBUILD_STATIC_LIBS=ON", "-DBUILD_TESTS=OFF", "-DBUILD_PRIMESIEVE=ON",
-                            f"-DCMAKE_CXX_FLAGS={CXXFLAGS}", f"-DCMAKE_EXE_LINKER_FLAGS={SAN_FLAGS}"] + VARIANTS[variant])
+                            f"-DCMAKE_CXX_FLAGS={cxx}", f"-DCMAKE_EXE_LINKER_FLAGS={ld}"] + VARIANTS[variant])
         if rc == 0:
             rc, out, err = run(["cmake", "--build", d, "-j16"])
         if rc != 0:
@@ -65,7 +74,11 @@ def build_harness(repo_build):
             if rc != 0:
                 return None, (out + err)[-6000:]
             objs.append(o)
-        cmd = ["g++", "-std=gnu++17"] + CXXFLAGS.split() + [
+        flags = CXXFLAGS
+        if os.path.exists(os.path.join(repo_build, ".cxxflags")):
+            with open(os.path.join(repo_build, ".cxxflags")) as f:
+                flags = f.read()
+        cmd = ["g++", "-std=gnu++17"] + flags.split() + [
             f"-I{REPO}/include", f"-I{REPO}/src", f"-I{VERIF}/harness"] + srcs + objs + [
             os.path.join(repo_build, "libprimesieve.a"), "-lpthread", "-o", exe + ".tmp"]
         rc, out, err = run(cmd)
